@@ -323,6 +323,13 @@ def r8(ctx, facts):
     if not picks:
         raise AnchorLost("ReplicasOrderedNTSIterator::next: no Picked state is built")
 
+    some_tests = []     # `get(dc).is_some()` / `.is_some_and(..)`: true only where the lookup succeeded
+    for bbc, c in b.calls():
+        if bbc in b.live_blocks and (c.decl or c.name or "").split("::")[-1] in ("is_some", "is_some_and") and c.args and c.args[0][0] in ("c", "m"):
+            src = backward_slice(b, c.args[0])[0] | {c.args[0][1][0]}
+            if any(g.dest[0] in src for g in gets):
+                some_tests.append(c)
+
     def known_dc(stt):
         for g in gets:
             if g.decl.endswith("contains_key"):
@@ -332,7 +339,7 @@ def r8(ctx, facts):
                 root = dj.disc_root(dj.canon.path(g.dest))
                 if in_set(stt.get(("disc", root)), {1}):
                     return True
-        return False
+        return any(in_set(stt.get(("call", c.bb)), {1}) for c in some_tests)
     def selected_by_lookup(st):
         """`picked` is what `ring.find(|node| ..)` returned, and that predicate is true only where the lookup succeeded"""
         fields = st[2][1][4]
@@ -387,6 +394,56 @@ def r8(ctx, facts):
         r.instance("primary-is-in-replicating-dc", ok,
                    "the node recorded as `picked` (and yielded as the primary replica) must come from the region where datacenter_repfactors has an entry for the node's "
                    "datacenter; otherwise the owner of the next vnode - possibly in a datacenter without replicas - is the first target of LWT plans", b.stmt_span(st))
+    # ... and the keyspace really has replicas there: a datacenter listed with replication factor 0 (`'dc2': 0`, the way a
+    # datacenter is taken out of a keyspace) owns vnodes on the global ring but holds no replica
+    for bb, j, st in picks:
+        ok = False
+        why = "no test of the replication factor found"
+        get_dests = {g.dest[0] for g in gets}
+        # (a) get(dc).is_some_and(|rf| *rf > 0) known true here
+        for bbc, c in b.calls():
+            if bbc not in b.live_blocks or (c.decl or c.name or "").split("::")[-1] not in ("is_some_and", "map_or", "filter") or len(c.args) < 2:
+                continue
+            if not (get_dests & (backward_slice(b, c.args[0])[0] | ({c.args[0][1][0]} if c.args[0][0] in ("c", "m") else set()))):
+                continue
+            positive = False
+            for l in backward_slice(b, c.args[-1])[0] | ({c.args[-1][1][0]} if c.args[-1][0] in ("c", "m") else set()):
+                for d in b.defs.get(l, []):
+                    if d[0] == "stmt" and d[3][0] == "agg" and d[3][1][0] == "closure":
+                        cb = facts.body(d[3][1][1])
+                        if cb is None:
+                            continue
+                        for bbx in cb.live_blocks:
+                            for sx in cb.stmts(bbx):
+                                if sx[0] == "A" and sx[2][0] == "bin" and sx[2][1] in ("Gt", "Ne", "Ge", "Lt", "Le") and any(
+                                        o[0] == "k" and o[1] == "int" and int(o[3]) in (0, 1) for o in sx[2][2:4]):
+                                    positive = True
+            sts = dj.states_before_stmt(bb, j)
+            if positive and sts and all(in_set(x.get(("call", bbc)), {1}) for x in sts):
+                ok = True
+        # (b) an explicit comparison of the looked-up factor with 0 whose true edge leads here
+        if not ok:
+            for sw in sorted(b.live_blocks):
+                t = b.term(sw)
+                if t[0] != "switch" or t[1][0] not in ("c", "m") or not b.dominates(sw, bb):
+                    continue
+                sd = b.single_def(t[1][1][0])
+                if not (sd and sd[0] == "stmt" and sd[3][0] == "bin" and sd[3][1] in ("Gt", "Ne", "Ge")):
+                    continue
+                ops = sd[3][2:4]
+                ks = [o for o in ops if o[0] == "k" and o[1] == "int"]
+                vs = [o for o in ops if o[0] in ("c", "m")]
+                if len(ks) == 1 and len(vs) == 1 and int(ks[0][3]) in (0, 1) and (get_dests & backward_slice(b, vs[0])[0]):
+                    edges = {int(v): tg for v, tg in t[2]}
+                    true_tg = t[3] if 0 in edges else edges.get(1, t[3])
+                    false_tg = edges.get(0, t[3])
+                    if bb in (b.reachable_from(true_tg) | {true_tg}) and bb not in (b.reachable_from(false_tg, removed_nodes=[sw]) | {false_tg}):
+                        ok = True
+        if not ok and selected_by_lookup(st):
+            ok = True   # judged inside the find() predicate (not re-examined here)
+        r.instance("primary-dc-has-a-positive-rf", ok,
+                   "the node recorded as `picked` comes from a datacenter that merely has an ENTRY in datacenter_repfactors (%s): with `'dc': 0` the owner of the next "
+                   "vnode in that datacenter - which holds no replica - is yielded first and the ordered view has one node more than the replica set" % why, b.stmt_span(st))
     r.instance("repfactor-lookups", True, "%d lookups of the node's datacenter in datacenter_repfactors" % len(gets), b.span, nontrivial=False)
 
 
